@@ -154,6 +154,9 @@ func genEDI(t *tape.Tape, o GenOpts) *World {
 	}
 	drawRecs(t, w, sh, o)
 	_ = ignoreCRLF
+	if MaybeScalarOutput(t, decls, m, o) {
+		w.SetTag("scalar-output", "1")
+	}
 	w.Schema = BuildSchema("edi", enc, fd, decls)
 	w.UsesJS, w.Ext = js || w.UsesJS, ext
 	w.Name = fmt.Sprintf("gen:edi(fields=%d,items=%d,recs=%d,seg=%q,elem=%q,rel=%q,comp=%q)", sh.NFields, sh.NItemFields, len(w.LRecs), segDelim, elemDelim, release, comp)
